@@ -127,6 +127,11 @@ class Custom(WorldStream):
                         key = ("opaque", rng.choice([0, 1]))
                     if key not in [h[0] for h in handlers]:
                         hid = rng.choice([0, 1, 1, 2, None, 3 if rng.random() < 0.2 else 1])
+                        if key[0] == "opaque" and hid is None:
+                            # a None entry makes the type "known" (jsonclass.py:192) without handling it: the
+                            # function object is then dumped as an attribute-less bean, which the statement
+                            # does not speak about and the model cannot describe (DESIGN.md, false alarms)
+                            hid = 1
                         handlers.append((key, hid))
                 names = sorted(set(k2 for d in descs for k2 in WG.all_field_names(None, descs, d))) + ["zz", "nope", "extra"]
                 case = {"world": descs, "value": v, "handlers": handlers,
